@@ -292,7 +292,7 @@ func experiment(c *lib.Ctx, scratch, tag string, seed int64, n int, plan crashPl
 	for seg := 0; seg < 2 && from < len(ops); seg++ {
 		km := killMode{}
 		if plan.random {
-			km = killMode{random: true, afterLine: rng.Intn(2*(len(ops)-from) + 3), pauseUs: rng.Intn(1500)}
+			km = killMode{random: true, afterLine: 1 + rng.Intn(2*(len(ops)-from)+2), pauseUs: rng.Intn(1500)}
 		} else if seg == 0 {
 			km.injectAt, km.injectSys = plan.first, plan.sys
 		} else {
